@@ -38,14 +38,22 @@ impl AuthenticationAdapter for MojangAdapter {
 
         // issue a request to Mojang's authentication endpoint
         let username = user.0;
-        let url = format!(
-            "https://sessionserver.mojang.com/session/minecraft/hasJoined?username={username}&serverId={hash}"
-        );
+        let url = "https://sessionserver.mojang.com/session/minecraft/hasJoined".to_string();
         // verification hook: lets a local mock session server capture the real request
         #[cfg(feature = "verif-hooks")]
         let url = crate::verif_session_url(url);
+        // the user name is chosen by the connecting client, so it is encoded as a parameter value and
+        // never pasted into the url text
+        let url = reqwest::Url::parse_with_params(
+            &url,
+            &[("username", username), ("serverId", hash.as_str())],
+        )
+        .map_err(|err| passage_adapters::Error::FailedFetch {
+            adapter_type: "mojang",
+            cause: Box::new(err),
+        })?;
         let profile = HTTP_CLIENT
-            .get(&url)
+            .get(url)
             .send()
             .await
             .map_err(|err| passage_adapters::Error::FailedFetch {
